@@ -71,6 +71,7 @@ Definition with_body (a : array) (r : res arr) : res array := b <- r ;; Ok (mkAr
 (* ---- void Insert(size_t index, size_t count, const Item& item)   (and Insert(index, const Item&) = count 1) ---- *)
 Definition array_insert (a : array) (index count : nat) (x : arg) : res array :=
   let initCount := cnt (body a) in
+  (* if (count > maxSize - initCount) throw std::bad_array_new_length();  [c5d1be1] -- cannot happen in nat *)
   let newCount := initCount + count in
   let grow := cap (body a) <? newCount in
   let itemIndex := pv_index_of a x in
